@@ -600,6 +600,8 @@ fn check_sat(cs: &Cs) -> Option<Option<usize>> {
 enum How {
     Vals,
     Shape,
+    /// like Shape, but synthesised in `SynthesisMode::Setup` (no assignments available), as key generation does
+    ShapeSetup,
     Dump,
 }
 
@@ -608,6 +610,9 @@ fn run(name: &str, g: &mut Args, how: How) -> R {
     let gad = build(name, g)?;
     g.done()?;
     let cs = ConstraintSystem::<Fq>::new_ref();
+    if how == How::ShapeSetup {
+        cs.set_mode(ark_relations::r1cs::SynthesisMode::Setup);
+    }
     let res = {
         let _guard = Guard;
         gad(cs.clone(), &hints)
@@ -641,11 +646,11 @@ fn run(name: &str, g: &mut Args, how: How) -> R {
                 }
             }
         }
-        How::Shape | How::Dump => {
+        How::Shape | How::ShapeSetup | How::Dump => {
             let d = cs.to_matrices().map(|m| dump(&m));
             match (how, d) {
                 (_, None) => out.push_str(" sha=NONE"),
-                (How::Shape, Some(d)) => out.push_str(&format!(" sha={}", sha256_hex(d.as_bytes()))),
+                (How::Shape | How::ShapeSetup, Some(d)) => out.push_str(&format!(" sha={}", sha256_hex(d.as_bytes()))),
                 (_, Some(d)) => out.push_str(&format!(" dump={}", d)),
             }
         }
@@ -661,6 +666,10 @@ pub fn reg(m: &mut Map) {
     op!(m, "r1.shape", |g| {
         let n = g.next()?.to_string();
         run(&n, g, How::Shape)
+    });
+    op!(m, "r1.shape.setup", |g| {
+        let n = g.next()?.to_string();
+        run(&n, g, How::ShapeSetup)
     });
     op!(m, "r1.dump", |g| {
         let n = g.next()?.to_string();
